@@ -44,8 +44,23 @@ func NewProvider(fs filesystem.Filespace, helpersPath, layoutPath, viewPath, ext
 	}
 }
 
+// handOut prepare a base or layout template for a caller. The cached base and layout
+// templates are cloned to build layouts and views later (and html/template can not
+// clone an executed template) so a caller never gets them but its own copy.
+func (provider *Provider) handOut(tmpl *template.Template, err error) (*template.Template, error) {
+	if err != nil || !provider.isCached {
+		return tmpl, err
+	}
+	return tmpl.Clone()
+}
+
 // Base return base template (with loaded helpers)
 func (provider *Provider) Base() (*template.Template, error) {
+	return provider.handOut(provider.sharedBase())
+}
+
+// sharedBase return base template kept by provider (never give it outside of provider)
+func (provider *Provider) sharedBase() (*template.Template, error) {
 	provider.baseMutex.RLock()
 	baseTemplate := provider.baseTemplate
 	provider.baseMutex.RUnlock()
@@ -83,6 +98,11 @@ func (provider *Provider) base() (baseTemplate *template.Template, err error) {
 
 // Layout return template for named layout (with loaded helpers and layout definitions)
 func (provider *Provider) Layout(name string) (*template.Template, error) {
+	return provider.handOut(provider.sharedLayout(name))
+}
+
+// sharedLayout return layout template kept by provider (never give it outside of provider)
+func (provider *Provider) sharedLayout(name string) (*template.Template, error) {
 	if name == "" {
 		name = goathtml.DefaultLayout
 	}
@@ -105,7 +125,7 @@ func (provider *Provider) layout(name string) (layoutTemplate *template.Template
 	if layoutTemplate, ok = provider.layouts[name]; ok {
 		return layoutTemplate, nil
 	}
-	if layoutTemplate, err = provider.Base(); err != nil {
+	if layoutTemplate, err = provider.sharedBase(); err != nil {
 		return nil, err
 	}
 	if layoutTemplate, err = layoutTemplate.Clone(); err != nil {
@@ -165,7 +185,7 @@ func (provider *Provider) view(layoutName, viewName, key string) (viewTemplate *
 		return viewTemplate, nil
 	}
 	// create a new view
-	if layoutTemplate, err = provider.Layout(layoutName); err != nil {
+	if layoutTemplate, err = provider.sharedLayout(layoutName); err != nil {
 		return nil, err
 	}
 	if viewTemplate, err = layoutTemplate.Clone(); err != nil {
